@@ -27,7 +27,7 @@ RULE = ("merge_coolers: regression corpus (D16 all-empty / leading empty rows wi
         "both storage modes, columns count / count+x, agg sum/max/min, dtype overrides, mergebuf sampled from 1..nnz+1 always incl. 1 and nnz+1); "
         "all input orders for k<=3; nested merges (3 tree shapes); incompatible pairs of each kind; values at the dtype limits; `cooler merge` CLI; "
         "merge_breakpoints at function level: every family of 1..2 monotone index arrays of length 2..4 with increments 0..2 x bufsize 1..nnz+1, plus random "
-        "larger families; parameter/representation audit (one case each): dtypes full / partial / narrowing / float / unsigned dict, agg full / partial dict, unsigned and float input columns mixed with signed ones (oracle only: the model covers signed integers), bin tables with extra columns, inputs and output addressed by URI inside multi-group files, mode=a / --append next to an existing cooler, CLI default chunk size and --field dtype/agg specs, huge mergebuf. non-trivial = at least two inputs with a shared pixel or a partition with >= 2 epochs or a refusal; distinct by input hash")
+        "larger families; parameter/representation audit (one case each): dtypes full / partial / narrowing / float / unsigned dict, agg full / partial dict, unsigned and float input columns mixed with signed ones (oracle only: the model covers signed integers), bin tables with extra columns, inputs and output addressed by URI inside multi-group files, mode=a / --append next to an existing cooler, CLI default chunk size and --field dtype/agg specs, huge mergebuf; every aggregate pandas accepts in `agg` (sum mean min max first last size count nunique var std median prod, two callables) for count and for an extra column x column subsets, over disjoint-row / overlapping / identical / with-an-empty-input / k=1 / k=4 supports x mergebuf 1, middle, nnz+1 (oracle only, NaN-aware, relative slack 1e-9 on floats); a HISTORY pass in one process (16 merges): the same input URIs (plain files, and groups of one file), the same URI list / tuple, output path and columns / agg / dtypes objects across consecutive calls while the files are rewritten in between with other nnz, bin table, nbins, storage mode, dtypes (API and CLI), caller arguments asserted unchanged; the bin table of every output is part of the observable. non-trivial = at least two inputs with a shared pixel or a partition with >= 2 epochs or a refusal; distinct by input hash")
 TRUSTED = ["pandas concat + groupby(sort=True).aggregate, np.result_type, h5py dataset I/O are observed through merge_coolers, modelled by "
            "Model/Merge.v (group/groupby_agg, widest signed width, int64 wrap-around of integer sums)",
            "input coolers are written by cooler.create_cooler (ordered path) and read back raw with h5py before they are handed to the model"]
